@@ -72,7 +72,7 @@ func cmdCheck(args []string) {
 		engineFail("contract errors: " + strings.Join(eng.db.Errors, "; "))
 	}
 
-	timeout := 20
+	timeout := 45
 	solverList := []string{"z3-new", "z3-em", "cvc5"}
 	if *tier == "thorough" {
 		timeout = 120
